@@ -154,6 +154,37 @@ fn run_grid(o: &dyn Obj, m: &str, cs: &Value, as_: &Value) -> Value {
     json!(rows)
 }
 
+/// the same grid asked in another order (mode bit 0: symbols reversed, bit 1: arguments
+/// reversed), reported in the canonical arrangement: an answer must not depend on what the
+/// calling thread asked before
+fn run_grid_perm(o: &dyn Obj, m: &str, cs: &Value, as_: &Value, mode: usize) -> Value {
+    if mode & 3 == 0 {
+        return run_grid(o, m, cs, as_);
+    }
+    let mut csv = cs.as_array().cloned().unwrap_or_default();
+    let mut asv = as_.as_array().cloned().unwrap_or_default();
+    if mode & 1 == 1 {
+        csv.reverse();
+    }
+    if mode & 2 == 2 {
+        asv.reverse();
+    }
+    let mut out = run_grid(o, m, &json!(csv), &json!(asv));
+    if let Some(rows) = out.as_array_mut() {
+        if mode & 2 == 2 {
+            for r in rows.iter_mut() {
+                if let Some(r) = r.as_array_mut() {
+                    r.reverse();
+                }
+            }
+        }
+        if mode & 1 == 1 {
+            rows.reverse();
+        }
+    }
+    out
+}
+
 fn f64_scaled(x: f64, pow: i32) -> i64 {
     // x * 2^pow is exact in f64 (barring overflow); render it when it is a small integer
     let y = x * (2f64).powi(pow);
@@ -504,8 +535,9 @@ pub fn exec(pool: &mut Pool, ev: &mut Value) {
                 for b in ev["batch"].as_array().cloned().unwrap_or_default() {
                     out1.push(run_grid(&**x, b["m"].as_str().unwrap(), &b["cs"], &b["as"]));
                 }
+                // the second pass asks every grid with its symbols in reverse order
                 for b in ev["batch"].as_array().cloned().unwrap_or_default() {
-                    out2.push(run_grid(&**x, b["m"].as_str().unwrap(), &b["cs"], &b["as"]));
+                    out2.push(run_grid_perm(&**x, b["m"].as_str().unwrap(), &b["cs"], &b["as"], 1));
                 }
                 let d1 = x.ser();
                 same = match (d0, d1) {
@@ -527,12 +559,13 @@ pub fn exec(pool: &mut Pool, ev: &mut Value) {
             let mut outs: Vec<Value> = vec![];
             if let Some(x) = pool.objs.get(&o) {
                 let batch = ev["batch"].as_array().cloned().unwrap_or_default();
-                let run = |x: &dyn Obj| -> Value {
+                // thread j asks in order mode j % 4 (repetition after repetition the next mode)
+                let run = |x: &dyn Obj, mode0: usize| -> Value {
                     let mut last = Value::Null;
-                    for _ in 0..reps {
+                    for rep in 0..reps {
                         let mut r = vec![];
                         for b in &batch {
-                            r.push(run_grid(x, b["m"].as_str().unwrap(), &b["cs"], &b["as"]));
+                            r.push(run_grid_perm(x, b["m"].as_str().unwrap(), &b["cs"], &b["as"], mode0 + rep));
                         }
                         let cur = json!(r);
                         if !last.is_null() && last != cur {
@@ -543,15 +576,16 @@ pub fn exec(pool: &mut Pool, ev: &mut Value) {
                     }
                     last
                 };
-                seq = vec![run(&**x)];
+                seq = vec![run(&**x, 0)];
                 let xr: &dyn Obj = &**x;
                 let barrier = std::sync::Barrier::new(t);
                 outs = std::thread::scope(|s| {
+                    let (barrier, run) = (&barrier, &run);
                     let hs: Vec<_> = (0..t)
-                        .map(|_| {
-                            s.spawn(|| {
+                        .map(|j| {
+                            s.spawn(move || {
                                 barrier.wait();
-                                match guard(|| run(xr)) {
+                                match guard(|| run(xr, j)) {
                                     Ok(v) => v,
                                     Err(_) => json!(PANIC),
                                 }
